@@ -22,6 +22,15 @@
  *      area callback answering IO_ERROR), and then the block write is decided
  *      against the flat model evaluated on the storage as that operation left
  *      it.  The result of the earlier operation is not judged.
+ *   T  top of the address space (regfam.h, fam_enumerate_top): the family moved
+ *      up so that the last word of the layout is 0xffffffff -- the last area,
+ *      a register at its end and every window reaching it end at 2^32, which
+ *      32-bit arithmetic cannot hold.  Windows: every (address, length) from
+ *      one below the first area up to 0xffffffff with address + length <= 2^32
+ *      (a request never wraps; wrapping requests are outside the statement).
+ *      Images, patterns and histories as for the other tables.  The reference
+ *      (regtab.h) and this file form every exclusive end in 64 bits.  Own
+ *      outcome classes "top-*"; "-to-last-word" = the window ends at 2^32.
  *
  * A table that register_init refuses ends its cases as trivial ones
  * (init-refused): whether a description is accepted is C04's sentence.  An
@@ -501,8 +510,9 @@ run_hist(const struct hist *h)
         break;
     }
     case H_READS: {
-        RegisterAtom *buf = mc_exact((FAM_MAXADDR + 1) * sizeof(RegisterAtom));
-        a = register_block_read(&tb.t, fam_origin(s), FAM_MAXADDR + 1, buf);
+        /* the whole window range (ten addresses; fewer where the address space ends before) */
+        RegisterAtom *buf = mc_exact(fam_span(s) * sizeof(RegisterAtom));
+        a = register_block_read(&tb.t, fam_origin(s), fam_span(s), buf);
         free(buf);
         RegisterAccess b = register_get(&tb.t, (RegisterHandle)s->nr, &v);
         if (a.code == REG_ACCESS_SUCCESS)
@@ -578,6 +588,7 @@ prepare(void)
 }
 
 static long n_accept, n_refuse;
+static long n_ref_readonly, n_ref_unmapped; /* refused writes to which the reference's read-only / unmapped class applies */
 
 /* one block write with the given words; storage and touched marks are
  * restored afterwards.  Returns false after a failure was recorded. */
@@ -591,6 +602,9 @@ one_write(uint32_t addr, uint32_t n, const RegisterAtom *words, const char *pnam
     struct verdict v;
     flat_write_verdict(&tb, addr, n, buf, &v);
     const bool want_ok = v.unmapped < 0 && v.readonly < 0 && v.invalid < 0 && v.range < 0;
+    const uint64_t wend = (uint64_t)addr + n; /* exclusive end of the request, <= 2^32 */
+    n_ref_readonly += v.readonly >= 0;
+    n_ref_unmapped += v.unmapped >= 0;
     touched_restore(&tb, 0);
     tb.cb_oob = 0;
     RegisterAccess a = register_block_write(&tb.t, addr, n, buf);
@@ -623,7 +637,7 @@ one_write(uint32_t addr, uint32_t n, const RegisterAtom *words, const char *pnam
             for (int i = 0; i < tb.s.na; ++i) {
                 for (uint32_t w = 0; w < tb.s.a[i].size; ++w) {
                     const uint32_t ad = tb.s.a[i].base + w;
-                    if (ad >= addr && ad < addr + n)
+                    if (ad >= addr && ad < wend)
                         expect[k + w] = words[ad - addr];
                 }
                 k += tb.s.a[i].size;
@@ -679,7 +693,8 @@ run_window(uint32_t addr, uint32_t n)
     RegisterAtom cur[FAM_MAXADDR + 3], w[FAM_MAXADDR + 3];
     char pname[80];
     bool ok = true;
-    n_accept = n_refuse = 0;
+    n_accept = n_refuse = n_ref_readonly = n_ref_unmapped = 0;
+    const uint64_t wend = (uint64_t)addr + n; /* exclusive end of the window, <= 2^32 */
     /* the current content is what the earlier operation (if any) left behind;
      * that operation is deterministic, so it is the same before every write */
     prepare();
@@ -713,7 +728,7 @@ run_window(uint32_t addr, uint32_t n)
     for (int r = 0; r < tb.s.nr && ok; ++r) {
         const struct rspec *rs = &tb.s.r[r];
         const uint32_t rw = ref_words(rs->type);
-        if (rs->addr + rw <= addr || addr + n <= rs->addr)
+        if ((uint64_t)rs->addr + rw <= addr || wend <= rs->addr)
             continue;
         uint64_t T[16];
         const int nt = targets(rs, T);
@@ -722,8 +737,8 @@ run_window(uint32_t addr, uint32_t n)
             ref_image(rs->type, T[ti], tb.s.be, img);
             memcpy(w, cur, n * sizeof w[0]);
             for (uint32_t k = 0; k < rw; ++k) {
-                const uint32_t a = rs->addr + k;
-                if (a >= addr && a < addr + n)
+                const uint32_t a = rs->addr + k; /* a word of the register: <= 0xffffffff */
+                if (a >= addr && a < wend)
                     memcpy(&w[a - addr], img + 2 * k, 2);
             }
             snprintf(pname, sizeof pname, "current+reg%d<-%016llx", r, (unsigned long long)T[ti]);
@@ -733,7 +748,26 @@ run_window(uint32_t addr, uint32_t n)
 done:
     if (!ok)
         mc_end(true, "failed");
-    else if (g_hist != NULL)
+    else if (fam_is_top(&tb.s)) {
+        /* tables whose last word is 0xffffffff: own classes; "to-last-word" =
+         * the window ends at 2^32 */
+        const bool tl = wend == 0x100000000ull;
+        if (g_hist != NULL)
+            mc_end(true, g_hclass == HC_OK ? "top-hist-earlier-op-succeeded" : g_hclass == HC_REFUSED ? "top-hist-earlier-op-refused"
+                   : g_hclass == HC_FAULT_REACHED ? "top-hist-earlier-op-fault-reached" : "top-hist-earlier-op-fault-not-reached");
+        else if (n == 0)
+            mc_end(true, "top-zero-length");
+        else if (n_refuse == 0)
+            mc_end(true, tl ? "top-write-ok-to-last-word" : "top-write-ok");
+        else if (n_accept != 0)
+            mc_end(true, tl ? "top-write-mixed-to-last-word" : "top-write-mixed");
+        else if (n_ref_readonly == n_refuse && n_ref_unmapped == 0)
+            mc_end(true, tl ? "top-write-refused-readonly-to-last-word" : "top-write-refused-readonly");
+        else if (n_ref_unmapped == n_refuse)
+            mc_end(true, "top-write-refused-unmapped");
+        else
+            mc_end(true, "top-write-refused-other");
+    } else if (g_hist != NULL)
         mc_end(true, g_hclass == HC_OK ? "hist-earlier-op-succeeded" : g_hclass == HC_REFUSED ? "hist-earlier-op-refused"
                : g_hclass == HC_FAULT_REACHED ? "hist-earlier-op-fault-reached" : "hist-earlier-op-fault-not-reached");
     else
@@ -746,8 +780,8 @@ hist_table_quick(const struct tspec *s, bool ext)
 {
     if (ext)
         return true;
-    if (s->a[0].base != 1 || s->na > 2)
-        return false; /* shifted tables, three-area layout */
+    if ((s->a[0].base != 1 && !fam_is_top(s)) || s->na > 2)
+        return false; /* tables straddling 2^16, three-area layout */
     if (s->na == 2 && s->a[1].base != s->a[0].base + s->a[0].size)
         return false; /* layout with a gap */
     return s->nr <= 2;
@@ -771,6 +805,7 @@ run_table(const struct tspec *s, int ti)
     else
         for (int r = 0; r < s->nr; ++r)
             nimg += g_nc[r] - 1;
+    const uint32_t span = fam_span(s); /* ten addresses; top tables: from one below the first area to 0xffffffff */
     struct hist H[MAXHIST];
     int nh = 0;
     if (g_thorough || hist_table_quick(s, g_ext))
@@ -796,22 +831,22 @@ run_table(const struct tspec *s, int ti)
         /* history index -1: none.  Quick: histories from the first and the last image only */
         const int nh_im = (g_thorough || im == 0 || im == nimg - 1) ? nh : 0;
         for (int hi = -1; hi < nh_im; ++hi)
-            for (uint32_t rel = 0; rel <= FAM_MAXADDR; ++rel)
-                for (uint32_t n = 0; rel + n <= FAM_MAXADDR + 1; ++n) {
-                    const uint32_t addr = fam_origin(s) + rel;
-                    if (!g_thorough && n > 6 && (rel + n) != FAM_MAXADDR + 1 && rel != 0)
+            for (uint32_t rel = 0; rel < span; ++rel)
+                for (uint32_t n = 0; rel + n <= span; ++n) {
+                    const uint32_t addr = fam_origin(s) + rel; /* <= 0xffffffff, and addr + n <= 2^32 */
+                    if (!g_thorough && n > 6 && (rel + n) != span && rel != 0)
                         continue; /* quick: long windows only when they touch an end */
-                    if (hi >= 0 && !g_thorough && n > 4 && (rel + n) != FAM_MAXADDR + 1 && rel != 0)
+                    if (hi >= 0 && !g_thorough && n > 4 && (rel + n) != span && rel != 0)
                         continue; /* quick, with a history: windows up to four words and those touching an end */
                     if (!mc_would_run()) {
                         mc_skip_case(); /* descriptor not formatted for cases of other shards */
                         continue;
                     }
                     if (hi < 0) {
-                        if (!mc_case("table#%d %s image=%d window=(%u,%u)", ti, tspec_str(s), im, addr, n))
+                        if (!mc_case("table#%d %s image=%d window=(%s,%u)", ti, tspec_str(s), im, addr_str(addr), n))
                             continue;
                     } else {
-                        if (!mc_case("table#%d %s image=%d after=%s window=(%u,%u)", ti, tspec_str(s), im, hist_str(&H[hi]), addr, n))
+                        if (!mc_case("table#%d %s image=%d after=%s window=(%s,%u)", ti, tspec_str(s), im, hist_str(&H[hi]), addr_str(addr), n))
                             continue;
                     }
                     if (!tb_built) {
@@ -856,10 +891,12 @@ main(int argc, char **argv)
     g_ext = false;
     const int nfam = fam_enumerate(run_table, g_thorough);
     g_ext = true;
-    const int ntab = xfam_enumerate(run_table, nfam);
-    char bound[900];
-    snprintf(bound, sizeof bound, "%d tables of the family + %d of the extended family (s32/s64/f64 singles and pairs, SKIP_DEFAULTS areas) x valid images x {no earlier operation, each earlier operation of the per-table history alphabet incl. one-fault environment operations} x windows over addresses 0..%d x patterns P0..P3 (P2 only without an earlier operation)%s",
-             nfam, ntab - nfam, FAM_MAXADDR,
+    const int nx = xfam_enumerate(run_table, nfam);
+    g_ext = false;
+    const int ntab = fam_enumerate_top(run_table, nx, g_thorough);
+    char bound[1300];
+    snprintf(bound, sizeof bound, "%d tables of the family + %d of the extended family (s32/s64/f64 singles and pairs, SKIP_DEFAULTS areas) + %d tables of the family moved to the top of the address space (last word of the layout = 0xffffffff: layouts A-D x mem/cb x LE/BE x singles at every placement, pairs, curated lists, and every access-flag combination of F2) x valid images x {no earlier operation, each earlier operation of the per-table history alphabet incl. one-fault environment operations} x windows over addresses 0..%d (top tables: every (address,length) from one below the first area up to 0xffffffff with address+length <= 2^32) x patterns P0..P3 (P2 only without an earlier operation)%s",
+             nfam, nx - nfam, ntab - nx, FAM_MAXADDR,
              g_thorough ? "" : " (quick: adjacent pairs only, long interior windows skipped; histories on the extended family and on the one-/two-register tables of the gap-free layouts, first and last image, windows <= 4 words or touching an end, first/last register)");
     mc_finish(true, bound);
     return 0;
